@@ -1,7 +1,8 @@
 #!/usr/bin/env python3
 """Write one prompt per property for a round of independently seeded changes (see DESIGN 9.4).
 
-usage: tools/mkprompts.py <worktree-prefix> <out-dir>      e.g.  tools/mkprompts.py /tmp/s4_ /tmp/seed4_out
+usage: tools/mkprompts.py <worktree-prefix> <out-dir> [file with the "where to look this time" paragraph]
+       e.g.  tools/mkprompts.py /tmp/s4_ /tmp/seed4_out      (default paragraph: round 4; tools/seed_round5_focus.txt: round 5)
 The sub-agent gets the property text, its own scratch worktree <prefix><Cxx> (create them with
 `git -C /repo worktree add --detach <dir> HEAD`), the list of mechanisms earlier rounds used (from seeded/*/meta.json)
 and nothing from /verif.  Deliveries are evaluated with tools/seedeval.py <out-dir>/<Cxx> <Cxx> --index-offset <n>."""
@@ -28,7 +29,10 @@ RULES = ("NEVER use `git stash` (the stash is shared with other checkouts of thi
          "evaluating two result iterators of queries that share variables concurrently.\n\n")
 
 
-def main(prefix, outdir):
+def main(prefix, outdir, away=None):
+    global AWAY
+    if away:
+        AWAY = open(away).read().strip() + "\n\n"
     tmpl = open(os.path.join(VERIF, "tools", "seed_prompt_template.txt")).read()
     for line in open(os.path.join(VERIF, "properties.jsonl")):
         d = json.loads(line)
@@ -51,4 +55,4 @@ def main(prefix, outdir):
 
 
 if __name__ == "__main__":
-    main(sys.argv[1], sys.argv[2])
+    main(*sys.argv[1:4])
